@@ -38,24 +38,24 @@ func e1[T any](_ T, err error) error { return err }
 // menu targets of the generic ASN.1 decoders
 type menuStruct struct {
 	A int
-	B string `asn1:"optional,utf8"`
-	C []byte `asn1:"optional,tag:0"`
+	B string        `asn1:"optional,utf8"`
+	C []byte        `asn1:"optional,tag:0"`
 	D asn1.RawValue `asn1:"optional"`
 }
 type menuExplicit struct {
-	V   int           `asn1:"optional,explicit,default:0,tag:0"`
+	V   int `asn1:"optional,explicit,default:0,tag:0"`
 	S   *big.Int
 	Alg pkix.AlgorithmIdentifier
-	T   time.Time     `asn1:"optional"`
+	T   time.Time       `asn1:"optional"`
 	E   asn1.Enumerated `asn1:"optional"`
-	F   asn1.Flag     `asn1:"optional,tag:1"`
-	Set []int         `asn1:"optional,set"`
+	F   asn1.Flag       `asn1:"optional,tag:1"`
+	Set []int           `asn1:"optional,set"`
 	R   asn1.RawContent
 }
 type ctMenuStruct struct {
 	A int
-	B string `asn1:"optional,utf8"`
-	C []byte `asn1:"optional,tag:0"`
+	B string          `asn1:"optional,utf8"`
+	C []byte          `asn1:"optional,tag:0"`
 	D ctasn1.RawValue `asn1:"optional"`
 }
 
@@ -283,46 +283,46 @@ func tlsAll(data []byte) error {
 
 // EPs maps the entry-point names of Inputs.tla to the real functions.
 var EPs = map[string]func(data []byte) error{
-	"x509.ParseCertificate":          func(d []byte) error { return e1(x509.ParseCertificate(d)) },
-	"x509.ParseCertificates":         func(d []byte) error { return e1(x509.ParseCertificates(d)) },
-	"x509.ParseTBSCertificate":       func(d []byte) error { return e1(x509.ParseTBSCertificate(d)) },
-	"x509.ParseCertificateRequest":   func(d []byte) error { return e1(x509.ParseCertificateRequest(d)) },
-	"x509.ParseCRL":                  func(d []byte) error { return e1(x509.ParseCRL(d)) },
-	"x509.ParseDERCRL":               func(d []byte) error { return e1(x509.ParseDERCRL(d)) },
-	"x509.ParseRevocationList":       func(d []byte) error { return e1(x509.ParseRevocationList(d)) },
-	"x509.ParsePKIXPublicKey":        func(d []byte) error { return e1(x509.ParsePKIXPublicKey(d)) },
-	"x509.ParsePKCS1PublicKey":       func(d []byte) error { return e1(x509.ParsePKCS1PublicKey(d)) },
-	"x509.ParsePKCS1PrivateKey":      func(d []byte) error { return e1(x509.ParsePKCS1PrivateKey(d)) },
-	"x509.ParsePKCS8PrivateKey":      func(d []byte) error { return e1(x509.ParsePKCS8PrivateKey(d)) },
-	"x509.ParseECPrivateKey":         func(d []byte) error { return e1(x509.ParseECPrivateKey(d)) },
-	"ctx509.ParseCertificate":        func(d []byte) error { return ctErr(e1(ctx509.ParseCertificate(d))) },
-	"ctx509.ParseCertificates":       func(d []byte) error { return ctErr(e1(ctx509.ParseCertificates(d))) },
-	"ctx509.ParseTBSCertificate":     func(d []byte) error { return ctErr(e1(ctx509.ParseTBSCertificate(d))) },
-	"ctx509.ParseCRL":                func(d []byte) error { return e1(ctx509.ParseCRL(d)) },
-	"ctx509.ParseDERCRL":             func(d []byte) error { return e1(ctx509.ParseDERCRL(d)) },
-	"ctx509.ParsePKIXPublicKey":      func(d []byte) error { return e1(ctx509.ParsePKIXPublicKey(d)) },
-	"ctx509.ParsePKCS1PrivateKey":    func(d []byte) error { return e1(ctx509.ParsePKCS1PrivateKey(d)) },
-	"ctx509.ParsePKCS8PrivateKey":    func(d []byte) error { return e1(ctx509.ParsePKCS8PrivateKey(d)) },
-	"ctx509.ParseECPrivateKey":       func(d []byte) error { return e1(ctx509.ParseECPrivateKey(d)) },
-	"ocsp.ParseRequest":              func(d []byte) error { return e1(ocsp.ParseRequest(d)) },
-	"ocsp.ParseResponse":             func(d []byte) error { return e1(ocsp.ParseResponse(d, nil)) },
-	"ocsp.ParseResponse/issuer":      func(d []byte) error { return e1(ocsp.ParseResponse(d, Aux.Issuer)) },
-	"ocsp.ParseResponseForCert":      func(d []byte) error { return e1(ocsp.ParseResponseForCert(d, Aux.Leaf, Aux.Issuer)) },
-	"asn1.Unmarshal/RDNSequence":     func(d []byte) error { var r pkix.RDNSequence; return e1(asn1.Unmarshal(d, &r)) },
-	"asn1.Unmarshal/menu":            asn1Menu,
-	"ctasn1.Unmarshal/menu":          ctAsn1Menu,
-	"cryptobyte/readers":             cryptobyteReaders,
-	"ct.DeserializeSCT":              func(d []byte) error { return e1(ct.DeserializeSCT(bytes.NewReader(d))) },
-	"x509ct.DeserializeSCT":          func(d []byte) error { return e1(x509ct.DeserializeSCT(bytes.NewReader(d))) },
-	"ct.UnmarshalDigitallySigned":    func(d []byte) error { return e1(ct.UnmarshalDigitallySigned(bytes.NewReader(d))) },
+	"x509.ParseCertificate":           func(d []byte) error { return e1(x509.ParseCertificate(d)) },
+	"x509.ParseCertificates":          func(d []byte) error { return e1(x509.ParseCertificates(d)) },
+	"x509.ParseTBSCertificate":        func(d []byte) error { return e1(x509.ParseTBSCertificate(d)) },
+	"x509.ParseCertificateRequest":    func(d []byte) error { return e1(x509.ParseCertificateRequest(d)) },
+	"x509.ParseCRL":                   func(d []byte) error { return e1(x509.ParseCRL(d)) },
+	"x509.ParseDERCRL":                func(d []byte) error { return e1(x509.ParseDERCRL(d)) },
+	"x509.ParseRevocationList":        func(d []byte) error { return e1(x509.ParseRevocationList(d)) },
+	"x509.ParsePKIXPublicKey":         func(d []byte) error { return e1(x509.ParsePKIXPublicKey(d)) },
+	"x509.ParsePKCS1PublicKey":        func(d []byte) error { return e1(x509.ParsePKCS1PublicKey(d)) },
+	"x509.ParsePKCS1PrivateKey":       func(d []byte) error { return e1(x509.ParsePKCS1PrivateKey(d)) },
+	"x509.ParsePKCS8PrivateKey":       func(d []byte) error { return e1(x509.ParsePKCS8PrivateKey(d)) },
+	"x509.ParseECPrivateKey":          func(d []byte) error { return e1(x509.ParseECPrivateKey(d)) },
+	"ctx509.ParseCertificate":         func(d []byte) error { return ctErr(e1(ctx509.ParseCertificate(d))) },
+	"ctx509.ParseCertificates":        func(d []byte) error { return ctErr(e1(ctx509.ParseCertificates(d))) },
+	"ctx509.ParseTBSCertificate":      func(d []byte) error { return ctErr(e1(ctx509.ParseTBSCertificate(d))) },
+	"ctx509.ParseCRL":                 func(d []byte) error { return e1(ctx509.ParseCRL(d)) },
+	"ctx509.ParseDERCRL":              func(d []byte) error { return e1(ctx509.ParseDERCRL(d)) },
+	"ctx509.ParsePKIXPublicKey":       func(d []byte) error { return e1(ctx509.ParsePKIXPublicKey(d)) },
+	"ctx509.ParsePKCS1PrivateKey":     func(d []byte) error { return e1(ctx509.ParsePKCS1PrivateKey(d)) },
+	"ctx509.ParsePKCS8PrivateKey":     func(d []byte) error { return e1(ctx509.ParsePKCS8PrivateKey(d)) },
+	"ctx509.ParseECPrivateKey":        func(d []byte) error { return e1(ctx509.ParseECPrivateKey(d)) },
+	"ocsp.ParseRequest":               func(d []byte) error { return e1(ocsp.ParseRequest(d)) },
+	"ocsp.ParseResponse":              func(d []byte) error { return e1(ocsp.ParseResponse(d, nil)) },
+	"ocsp.ParseResponse/issuer":       func(d []byte) error { return e1(ocsp.ParseResponse(d, Aux.Issuer)) },
+	"ocsp.ParseResponseForCert":       func(d []byte) error { return e1(ocsp.ParseResponseForCert(d, Aux.Leaf, Aux.Issuer)) },
+	"asn1.Unmarshal/RDNSequence":      func(d []byte) error { var r pkix.RDNSequence; return e1(asn1.Unmarshal(d, &r)) },
+	"asn1.Unmarshal/menu":             asn1Menu,
+	"ctasn1.Unmarshal/menu":           ctAsn1Menu,
+	"cryptobyte/readers":              cryptobyteReaders,
+	"ct.DeserializeSCT":               func(d []byte) error { return e1(ct.DeserializeSCT(bytes.NewReader(d))) },
+	"x509ct.DeserializeSCT":           func(d []byte) error { return e1(x509ct.DeserializeSCT(bytes.NewReader(d))) },
+	"ct.UnmarshalDigitallySigned":     func(d []byte) error { return e1(ct.UnmarshalDigitallySigned(bytes.NewReader(d))) },
 	"x509ct.UnmarshalDigitallySigned": func(d []byte) error { return e1(x509ct.UnmarshalDigitallySigned(bytes.NewReader(d))) },
-	"ct.ReadMerkleTreeLeaf":          func(d []byte) error { return e1(ct.ReadMerkleTreeLeaf(bytes.NewReader(d))) },
-	"ct.UnmarshalX509ChainArray":     func(d []byte) error { return e1(ct.UnmarshalX509ChainArray(d)) },
-	"ct.UnmarshalPrecertChainArray":  func(d []byte) error { return e1(ct.UnmarshalPrecertChainArray(d)) },
-	"google.Parse":                   func(d []byte) error { return e1(google.Parse(d, "v")) },
-	"microsoft.Parse":                func(d []byte) error { return e1(microsoft.Parse(d)) },
-	"mozilla.Parse":                  func(d []byte) error { return e1(mozilla.Parse(d)) },
-	"tls.*.unmarshal":                tlsAll,
+	"ct.ReadMerkleTreeLeaf":           func(d []byte) error { return e1(ct.ReadMerkleTreeLeaf(bytes.NewReader(d))) },
+	"ct.UnmarshalX509ChainArray":      func(d []byte) error { return e1(ct.UnmarshalX509ChainArray(d)) },
+	"ct.UnmarshalPrecertChainArray":   func(d []byte) error { return e1(ct.UnmarshalPrecertChainArray(d)) },
+	"google.Parse":                    func(d []byte) error { return e1(google.Parse(d, "v")) },
+	"microsoft.Parse":                 func(d []byte) error { return e1(microsoft.Parse(d)) },
+	"mozilla.Parse":                   func(d []byte) error { return e1(mozilla.Parse(d)) },
+	"tls.*.unmarshal":                 tlsAll,
 }
 
 // the ct/x509 fork reports tolerated problems as a NonFatalErrors value next to a certificate
